@@ -319,7 +319,9 @@ Definition cell_eq (d e : cell) : bool :=
 Definition cell_isnan (d : cell) : res bool :=
   match d with
   | CStr _ => Err EType
-  | CInt _ | CBool _ => Ok false
+  | CInt z => if Z.ltb z (- 2 ^ 63) || Z.leb (2 ^ 64) z then Err EType else Ok false
+                                               (* integers outside int64/uint64 become object arrays *)
+  | CBool _ => Ok false
   | CFloat f => Ok (f_isnan f)
   | CCplx re im => Ok (f_isnan re || f_isnan im)
   end.
